@@ -358,7 +358,6 @@ def seg_case(case, t: Tally, verbose=False):
         t.judge("bad_length_prefix_closes", ["close", side] in got, dict(feats, stream=label), case, "close of the %s connection" % side,
                 [e[:2] for e in got])
     t.executions += 1
-    t.max_depth = max(t.max_depth, len(cuts) + 1)
     t.case(case if len(cuts) == 1 and len(t.samples) < 1 else None, nontrivial=bool(cuts), key=[label, direction, cuts])
     t.outcome(got)
     t.add("segmentation_cases")
